@@ -6,6 +6,7 @@ for P in "$@"; do
   for D in seeded/$P-m*; do
     [ -f "$D/patch.diff" ] || continue
     R=$(sh tools/mut/confirm.sh $P $D 2>&1 | grep -E "^RESULT" | head -1)
+    case "$R" in *apply=FAIL*|"") echo "$(basename $D) $R (patch does not apply to the current HEAD: meta.json left as recorded)"; rm -f $D/check.log; continue;; esac
     python3 tools/mut/meta.py $D $P > /tmp/reconf_meta.$$ 2>&1
     echo "$(basename $D) $R $(cat /tmp/reconf_meta.$$ | tail -1)"
     rm -f $D/check.log /tmp/reconf_meta.$$
